@@ -7,9 +7,14 @@
    took their steps, read from the engine's own log) are turned into the model's events and
    replayed by [grun current]; the prediction is what the model's final state says about
    R/W/G/C/L (followed by the echoed history when every event was enabled in the model).
+   The caller's cancel takes effect somewhere between the X0 and X1 tokens; every position of
+   that window is tried (see below).
    The verdict is the executable specification (spec_outcome_b / spec_term_b / spec_guns_b)
-   evaluated on the implementation's observation; its inputs "failures that had occurred /
-   cancel had happened when Run returned" are read off the history up to the E.ret marker. *)
+   evaluated on the implementation's observation.  Its inputs are read off the history up to
+   the E.ret marker: the failures that had occurred (results carrying a failure AND the
+   <p>.!<cause> entries the mocks log when they fail -- the ground truth does not depend on
+   what the engine made of the failure), whether Engine.Run had received nil from every pool,
+   and whether the caller had cancelled (ambiguous inside the window: either reading accepted). *)
 open Model
 open Conv
 
@@ -53,6 +58,8 @@ let event_of_token (t : string) : gevent option * (int * cause) option =
         | "warm" -> (PreWarmFail, Some (pi, CWarmUp)) | "sched" -> (PreSchedFail, Some (pi, CSchedFactory))
         | _ -> failwith "bad pre token") in
       (Some (GvPool (nat_of_int pi, PvPre o')), f)
+  | [ p; w ] when String.length w > 1 && w.[0] = '!' ->
+      (None, Some (int_of_string p, cause_of (String.sub w 1 (String.length w - 1))))
   | [ p; "sf" ] -> (Some (GvPool (nat_of_int (int_of_string p), PvSchedFin)), None)
   | [ p; "fc" ] -> (Some (GvPool (nat_of_int (int_of_string p), PvFrontCtx)), None)
   | [ p; "fz" ] -> (Some (GvPool (nat_of_int (int_of_string p), PvFrontClosed)), None)
@@ -151,6 +158,10 @@ let predict (c : string) (obs : string) : string * string * bool =
       (* inputs of the specification, read off the history up to the moment Run returned *)
       let before = Array.to_list (Array.sub arr 0 ret_idx) in
       let fails = List.filter_map (fun (_, (_, f)) -> f) before in
+      (* Engine.Run had received a nil result from every pool when it returned *)
+      let has t = List.exists (fun (x, _) -> x = t) before in
+      let all_nil = List.for_all (fun p -> has (Printf.sprintf "%d.fz" p) && has (Printf.sprintf "E.%d" p))
+                      (List.init npools (fun p -> p)) in
       let sure_cancelled = i0 >= 0 && d_idx >= 0 && i1 < d_idx in
       let sure_not_cancelled = i0 < 0 || i0 > ret_idx in
       let all_fails = List.filter_map (fun (_, f) -> f) parsed in
@@ -167,7 +178,7 @@ let predict (c : string) (obs : string) : string * string * bool =
                failed are never handed to an instance; anything beyond those is a gun of a started instance *)
             let warm = List.length (List.filter (fun t -> match String.split_on_char '.' t with
               | [ _; "pre"; ("ok" | "warm" | "sched") ] -> true | _ -> false) toks) in
-            let bindf = List.length (List.filter (fun (_, c) -> c = CBind) all_fails) in
+            let bindf = List.length (List.filter (fun (ev, f) -> ev <> None && (match f with Some (_, CBind) -> true | _ -> false)) parsed) in
             let unclosed = int_of_nat o.o_created - int_of_nat o.o_closed in
             Printf.sprintf "BAD:guns-unclosed:%s created=%s closed=%s"
               (if unclosed <> warm + bindf then "gun-of-a-started-instance"
@@ -176,12 +187,13 @@ let predict (c : string) (obs : string) : string * string * bool =
           end
         end
         else if res_of_string r_obs = None then "BAD:run-hang Engine.Run did not return (" ^ r_obs ^ ")"
-        else if not ((not sure_not_cancelled && spec_outcome_b fl true o.o_res) ||
-                     (not sure_cancelled && spec_outcome_b fl false o.o_res)) then begin
+        else if not ((not sure_not_cancelled && spec_outcome_b fl true all_nil o.o_res) ||
+                     (not sure_cancelled && spec_outcome_b fl false all_nil o.o_res)) then begin
           let cancelled = not sure_not_cancelled in
           let fs = String.concat "+" (List.sort_uniq compare (List.map (fun (_, c) -> cause_name c) fails)) in
           match o.o_res with
-          | RNil -> "BAD:outcome:nil-despite-failure:" ^ fs
+          | RNil -> if not all_nil then "BAD:outcome:nil-before-natural-end"
+                    else "BAD:outcome:nil-despite-failure:" ^ fs
           | RCtx -> "BAD:outcome:ctx-error-without-cancel"
           | RFail c -> if cancelled then "BAD:outcome:failure-returned-after-cancel:" ^ cause_name c
                        else "BAD:outcome:cause-not-among-failures:" ^ cause_name c ^ ":occurred=" ^ fs
